@@ -1,4 +1,4 @@
-From PG Require Import Lib.Strs Corr.Driver Model.Union.
+From PG Require Import Lib.Strs Corr.Driver Model.Union Model.UnionHist Model.UnionGen.
 From Coq Require Import ZArith.
 
 Fixpoint value_eqb (a b : value) {struct a} : bool :=
@@ -50,3 +50,20 @@ Definition guards (c : ty * json) : list bool :=
   let b := blame_of (fst c) (snd c) in [negb (b_a b); negb (b_b b); negb (b_d b)].
 Definition run (cases : list ((ty * json) * obs)) : list N :=
   report obs_eqb model_obs guards cases.
+
+(* F14f: a process = successive calls through one converter; bit1 = the order-consistency guard fails *)
+Definition model_hist (rqs : list (ty * json)) : list obs :=
+  map (fun r => match r with Ok v => Ok (v, unstructure v) | Err => Err end) (UnionHist.run empty_state rqs).
+Definition run_hist (cases : list (list (ty * json) * list obs)) : list N :=
+  report (list_eqb obs_eqb) model_hist (fun rqs => [consistentb (map fst rqs)]) cases.
+
+(* generator side: alias text of a oneOf/anyOf (members as resolved type strings, nullable flag) *)
+Definition run_alias (cases : list ((list str * bool) * str)) : list N :=
+  report str_eqb (fun c => alias_type (fst c) (snd c)) (fun _ => []) cases.
+
+(* generator side: enum typing of the variants' discriminator property after the collector ran;
+   case = (unions in schema order, variant names to look at); bit1 F14g, bit2 F14h *)
+Definition run_collect (cases : list ((list dunion * list str) * list (option (list str)))) : list N :=
+  report (list_eqb (opt_eqb (list_eqb str_eqb)))
+         (fun c => map (fun V => alookup V (collect (fst c))) (snd c))
+         (fun c => [guard_F14g (fst c); guard_F14h (fst c)]) cases.
